@@ -52,7 +52,10 @@ def compare(ctx, g, h, perm, prune, o1, o2):
             ok_o, ok_g = (o1, g) if a == "ok" else (o2, h)
             # listed finding: a sub-threshold value of the initial state, reported as 0 in one numbering
             p0 = ok_o["res"][3][0]
-            if 0 < p0 <= 1e-5 and lower_bound_residual_ok(ok_g, ok_o["res"][3]):
+            bad_g = h if a == "ok" else g
+            rb = impl.reach_only(bad_g, prune=False)
+            if 0 < p0 <= 1e-5 and lower_bound_residual_ok(ok_g, ok_o["res"][3]) and rb["outcome"] == "ok" \
+                    and rb["probs"][0] == 0 and lower_bound_residual_ok(bad_g, rb["probs"]):
                 sig = KEY_SOLV
         ctx.violation("solvable-verdict", inp, {"original": a, "transformed": b}, key=sig)
         return
